@@ -223,26 +223,38 @@ class SeqV:
 
 
 class ListV:
-    """mutable python list with concrete shape"""
+    """mutable python list with concrete shape; `sym` is set (to a SymListV that takes over)
+    once the list is extended by a sequence of symbolic length"""
 
-    __slots__ = ("items",)
+    __slots__ = ("items", "sym")
 
     def __init__(self, items=()):
         self.items = list(items)
+        self.sym = None
 
     def __repr__(self):
         return f"ListV({self.items})"
 
 
+class CompDictV:
+    """{K(i): V(i) for i in range(lo, hi)} with symbolic bounds: only .get is modelled, as
+    the over-approximation 'the default, or V(t) for some t in range with K(t) == key'"""
+
+    __slots__ = ("keyfn", "valfn", "lo", "hi")
+
+    def __init__(self, keyfn, valfn, lo, hi):
+        self.keyfn, self.valfn, self.lo, self.hi = keyfn, valfn, lo, hi
+
+
 class SymListV:
-    """mutable list = immutable symbolic prefix (SeqV, arbitrary length) + concrete tail;
-    models a list in the middle of a loop that only ever appends"""
+    """mutable list = immutable symbolic prefix (SeqV, arbitrary length) + tail of appended
+    chunks (concrete items or whole symbolic sequences); models a list that only grows"""
 
     __slots__ = ("prefix", "items")
 
     def __init__(self, prefix, items=()):
         self.prefix = prefix
-        self.items = list(items)
+        self.items = list(items)  # elements, or SeqV chunks (from extend)
 
     def __repr__(self):
         return f"SymListV(prefix n={self.prefix.n}, tail={self.items})"
@@ -332,6 +344,13 @@ class MapV:
         self.touched.append(t)
         I.ghost.trace.append(("map-access", self.ident))
         return t
+
+
+def deref(v):
+    """a ListV that became symbolic is represented by its SymListV"""
+    if isinstance(v, ListV) and v.sym is not None:
+        return v.sym
+    return v
 
 
 def is_symbolic(v):
